@@ -6,7 +6,8 @@
 export GOFLAGS=-mod=mod GOPROXY=off GOSUMDB=off GOTOOLCHAIN=local
 mode=$1; N=${2:-6}
 ids=$(python3 -c "import json; print(' '.join(c['property_id'] for c in json.load(open('/verif/MANIFEST.json'))['checks']))")
-if [ "$mode" = refactors ]; then list=$(ls -d /verif/refactors/${ONLY:-}*/); else list=$(ls -d /verif/seeded/${ONLY:-}*/); fi
+# mode "cross": every check on every seeded change (which other properties' checks fire, and why)
+if [ "$mode" = refactors ]; then list=$(ls -d /verif/refactors/${ONLY:-}*/); else list=$(ls -d ${SEEDDIR:-/verif/seeded}/${ONLY:-}*/); fi
 out=/tmp/par_corpus_$mode; rm -rf $out; mkdir -p $out
 worker() {
   i=$1; wt=/tmp/wt/par$i; sc=/tmp/verif_scratch_par$i; mkdir -p $sc; cp /verif/known_findings.json $sc/
@@ -21,16 +22,16 @@ worker() {
       if git apply -3 $p >/dev/null 2>&1 && [ -z "$(git diff --name-only --diff-filter=U)" ]; then git reset -q; else git checkout -q -- . ; git reset -q --hard HEAD >/dev/null 2>&1; echo "SKIP $name (does not apply to HEAD)" > $out/$name.txt; continue; fi
     fi
     if ! (cd server && go build ./... >/dev/null 2>&1); then echo "SKIP $name (does not build)" > $out/$name.txt; continue; fi
-    if [ "$mode" = refactors ]; then
+    if [ "$mode" = refactors ] || [ "$mode" = cross ]; then
       res=""
       for pid in $ids; do
-        v=$(/verif/bin/verifchk check $pid --repo $wt --verif $sc 2>&1 | grep "^VIOLATION rule" | cut -c1-${W:-260})
+        v=$(${BIN:-/verif/bin/verifchk} check $pid --repo $wt --verif $sc 2>&1 | grep "^VIOLATION rule" | cut -c1-${W:-260})
         [ -n "$v" ] && res="$res\n[$pid]\n$v"
       done
       if [ -z "$res" ]; then echo "SILENT $name" > $out/$name.txt; else printf "ALARM $name$res\n" > $out/$name.txt; fi
     else
       pid=${name%%_*}
-      v=$(/verif/bin/verifchk check $pid --repo $wt --verif $sc 2>&1 | grep "^VIOLATION rule" | sed 's/^VIOLATION rule=\([^ ]*\) .*/\1/' | sort -u | tr '\n' ' ')
+      v=$(${BIN:-/verif/bin/verifchk} check $pid --repo $wt --verif $sc 2>&1 | grep "^VIOLATION rule" | sed 's/^VIOLATION rule=\([^ ]*\) .*/\1/' | sort -u | tr '\n' ' ')
       if [ -n "$v" ]; then echo "DETECTED $name $v" > $out/$name.txt; else echo "MISSED $name" > $out/$name.txt; fi
     fi
   done
